@@ -276,8 +276,49 @@ def buffer_rules(fb, R):
                 R.check(ok, 'B3-growth-target-covers-request', '%s#new-capacity-test' % fn.q, fn.loc(c['id']),
                         'the capacity computed for grow() is compared with `%s`; it must cover m_written + the requested size (all bytes written so far, '
                         'committed or not, plus the new request), otherwise the reserved range ends beyond the new block' % fn.expr(other))
+    # ... and the capacity that reaches grow() is SHOWN to cover the request: the call is dominated by the outcome
+    # `new_capacity >= m_written + size` of such a comparison (loop exit or if), or the argument is max(.., m_written + size)
+    def _is_request_sum(fn, nid, pd):
+        o = fn.sn(nid)
+        if o is None or o.get('k') != 'binop' or o['op'] != '+':
+            return False
+        fa, fb_ = this_field(fn, o['lhs']), this_field(fn, o['rhs'])
+        va, vb = fn.sn(o['lhs']), fn.sn(o['rhs'])
+        pa = va is not None and va.get('k') == 'var' and va.get('d') in pd
+        pb = vb is not None and vb.get('k') == 'var' and vb.get('d') in pd
+        return (fa == 'm_written' and pb) or (fb_ == 'm_written' and pa)
+    for fn in methods:
+        pd = {p['d'] for p in fn.params}
+        for g in [n for n in fn.all_nodes() if n.get('k') == 'call' and n.get('q') == BUF + '::grow' and n.get('args')]:
+            a = fn.sn(g['args'][0])
+            if a is not None and a.get('k') == 'var' and a.get('d') in pd:
+                continue
+            n_cov += 1
+            ok = False
+            if a is not None and a.get('k') == 'var':
+                d = a['d']
+                for (c, sense, _b) in guards_of(fn, g['id']):
+                    cn = fn.sn(c)
+                    if cn is None or cn.get('k') != 'binop' or cn['op'] not in ('>', '<', '>=', '<='):
+                        continue
+                    l, r = fn.sn(cn['lhs']), fn.sn(cn['rhs'])
+                    lv = l is not None and l.get('k') == 'var' and l.get('d') == d
+                    rv_ = r is not None and r.get('k') == 'var' and r.get('d') == d
+                    if rv_ and _is_request_sum(fn, cn['lhs'], pd):      # sum OP d
+                        covers = (cn['op'] == '>' and not sense) or (cn['op'] == '<=' and sense)
+                    elif lv and _is_request_sum(fn, cn['rhs'], pd):     # d OP sum
+                        covers = (cn['op'] == '<' and not sense) or (cn['op'] == '>=' and sense)
+                    else:
+                        covers = False
+                    ok = ok or covers
+            elif a is not None and a.get('k') == 'call' and a.get('q') == 'std::max':
+                ok = any(_is_request_sum(fn, x, pd) for x in a.get('args', []))
+            R.check(ok, 'B3-growth-target-covers-request', '%s#grow-argument-covers' % fn.q, fn.loc(g['id']),
+                    'grow(%s) is not shown to provide m_written + the requested size: no dominating test `capacity >= m_written + size` '
+                    '(doubling once is not enough for a request larger than the current capacity): the reserved range ends beyond the new block'
+                    % fn.expr(g['args'][0]))
     if n_cov == 0:
-        R.note('B3-growth-target-covers-request: no new-capacity comparison found (capacity computed without a loop): not decided')
+        R.broken('B3-growth-target-covers-request: no grow() call with a computed capacity found in Buffer')
 
 
 # ------------------------------------------------------------------------------------------------ size conservation
